@@ -157,7 +157,63 @@ func sLt(a, b string) string { return sx("<", a, b) }
 func sGe(a, b string) string { return sx(">=", a, b) }
 func sGt(a, b string) string { return sx(">", a, b) }
 
-func sSelect(a, i string) string   { return sx("select", a, i) }
+// sSelect builds (select a i), resolving reads of literal indices through
+// stores at literal indices: (select (store a 1 v) 1) = v, (select (store a 1 v) 2) = (select a 2).
+func sSelect(a, i string) string {
+	if isNumeral(i) {
+		for depth := 0; depth < 64; depth++ {
+			arr, idx, val, ok := splitStore(a)
+			if !ok || !isNumeral(idx) {
+				break
+			}
+			if idx == i {
+				return val
+			}
+			a = arr
+		}
+	}
+	return sx("select", a, i)
+}
+
+func isNumeral(s string) bool {
+	if s == "" {
+		return false
+	}
+	for _, r := range s {
+		if r < '0' || r > '9' {
+			return false
+		}
+	}
+	return true
+}
+
+// splitStore parses "(store A I V)" into its three arguments.
+func splitStore(s string) (arr, idx, val string, ok bool) {
+	if !strings.HasPrefix(s, "(store ") || !strings.HasSuffix(s, ")") {
+		return
+	}
+	body := s[7 : len(s)-1]
+	var parts []string
+	depth, start := 0, 0
+	for k := 0; k < len(body); k++ {
+		switch body[k] {
+		case '(':
+			depth++
+		case ')':
+			depth--
+		case ' ':
+			if depth == 0 {
+				parts = append(parts, body[start:k])
+				start = k + 1
+			}
+		}
+	}
+	parts = append(parts, body[start:])
+	if len(parts) != 3 {
+		return
+	}
+	return parts[0], parts[1], parts[2], true
+}
 func sStore(a, i, v string) string { return sx("store", a, i, v) }
 func sBool(b bool) string {
 	if b {
